@@ -11,6 +11,7 @@ import (
 	"vharness/c08"
 	"vharness/c09"
 	"vharness/c17"
+	"vharness/c18"
 	"vharness/c20"
 	"vharness/c14"
 	"vharness/c15"
@@ -37,6 +38,7 @@ func init() {
 	add("c08", c08.Harnesses)
 	add("c09", c09.Harnesses)
 	add("c17", c17.Harnesses)
+	add("c18", c18.Harnesses)
 	add("c20", c20.Harnesses)
 	add("c14", c14.Harnesses)
 	add("c15", c15.Harnesses)
